@@ -68,6 +68,13 @@ NDSize DataSpace::extent() const {
 
 
 void DataSpace::hyperslab(const NDSize &count, const NDSize &start, H5S_seloper_t op) {
+    // H5Sselect_hyperslab reads one entry per dimension of the dataspace from both
+    // arrays: shorter ones would be read past their end
+    int ndims = H5Sget_simple_extent_ndims(hid);
+    if (ndims < 0 || count.size() < static_cast<size_t>(ndims) || start.size() < static_cast<size_t>(ndims)) {
+        throw H5Exception("DataSpace::hyperslab(): count and offset must have at least as many entries as the data has dimensions");
+    }
+
     HErr status = H5Sselect_hyperslab(hid, op, start.data(), nullptr, count.data(), nullptr);
     status.check("DataSpace::hyperslab(): H5Sselect_hyperslab() failed!");
 }
